@@ -146,7 +146,7 @@ func c15r2(r *R) {
 		}
 		switch calleeName(c.Common()) {
 		case "invoke net.Conn.SetReadDeadline":
-			arg := c.Common().Args[0]
+			arg := refArgs(c.Common())[0]
 			for i := 0; i < 3; i++ {
 				prm, isP := arg.(*ssa.Parameter)
 				if !isP {
@@ -174,7 +174,7 @@ func c15r2(r *R) {
 		return
 	}
 	idle, hdr, whole := sets[0], sets[1], sets[2]
-	r.check(instrDominates(idle.site, peek) && describe(peek.Common().Args[1]) == "1", "readRequest#idle-before-wait", idle.site.Pos(), "idle deadline armed before waiting for the first byte", "the wait for the next request is not covered by the idle deadline")
+	r.check(instrDominates(idle.site, peek) && describe(refArgs(peek.Common())[1]) == "1", "readRequest#idle-before-wait", idle.site.Pos(), "idle deadline armed before waiting for the first byte", "the wait for the next request is not covered by the idle deadline")
 	r.check(instrDominates(peek, hdr.site) && instrDominates(hdr.site, read), "readRequest#header-deadline-window", hdr.site.Pos(), "header deadline armed after the first byte and before the head is parsed", "header deadline is not armed between the first byte and the parse")
 	r.check(instrDominates(read, whole.site), "readRequest#whole-after-head", whole.site.Pos(), "whole-request deadline replaces the header deadline after the head", "deadline not re-armed after the head")
 	// clock readings
@@ -274,7 +274,7 @@ func c15r3(r *R) {
 	}
 	good := false
 	if hs != nil {
-		if phi, ok := hs.Common().Args[1].(*ssa.Phi); ok {
+		if phi, ok := refArgs(hs.Common())[1].(*ssa.Phi); ok {
 			var sawBounded, sawPlain bool
 			for i, e := range phi.Edges {
 				d := describe(e)
@@ -287,7 +287,7 @@ func c15r3(r *R) {
 			}
 			good = sawBounded && sawPlain
 		} else {
-			good = boundedByHelper(hs.Common().Args[1], "$0.Proxy.MITMTLSHandshakeTimeout")
+			good = boundedByHelper(refArgs(hs.Common())[1], "$0.Proxy.MITMTLSHandshakeTimeout")
 		}
 	}
 	r.check(good, "handleMITM#handshake-timeout", hm.Pos(), "MITM handshake bounded by MITMTLSHandshakeTimeout when positive", "the MITM handshake is not bounded by its configured timeout")
@@ -377,12 +377,12 @@ func c15r5(r *R) {
 			}
 			switch {
 			case n == "(*martian.proxyConn).writeResponse":
-				arg := describe(c.Common().Args[len(c.Common().Args)-1])
+				arg := describe(refArgs(c.Common())[len(c.Common().Args)-1])
 				armed := arg == "(time.Time).Add(time.Now(), $0.Proxy.WriteTimeout)" || arg == "(time.Time).Add(time.Now(), $0.WriteTimeout)"
 				guard := guardedBy(c.Block(), func(g string) bool { return strings.Contains(g, "WriteTimeout > 0)") && !strings.HasPrefix(g, "!") })
 				r.check(armed && guard, key, c.Pos(), "armed with now+WriteTimeout, only when WriteTimeout is positive", "write deadline is "+arg+" (guarded by WriteTimeout>0: "+fmt.Sprint(guard)+")")
 			case n == "(*martian.proxyConn).writeResponse$1":
-				av := c.Common().Args[len(c.Common().Args)-1]
+				av := refArgs(c.Common())[len(c.Common().Args)-1]
 				arg := describe(av)
 				k, isConst := av.(*ssa.Const)
 				r.check(isConst && k.Value == nil && typeStr(av.Type()) == "time.Time", key, c.Pos(), "cleared with the zero time", "deferred call sets "+arg)
@@ -497,7 +497,7 @@ func boundedByHelper(ctx ssa.Value, wantTimeout string) bool {
 					l, op, rr, ok := splitTop(k)
 					return ok && !pol && op == "<=" && rr == "0" && l == describeRaw(g.Params[tp])
 				})
-				if wt != nil && calleeName(wt.Common()) == "context.WithTimeout" && wt.Common().Args[1] == ssa.Value(g.Params[tp]) && positive {
+				if wt != nil && calleeName(wt.Common()) == "context.WithTimeout" && refArgs(wt.Common())[1] == ssa.Value(g.Params[tp]) && positive {
 					sawBounded = true
 				} else if _, isParam := v.(*ssa.Parameter); isParam && !positive {
 					sawPlain = true
